@@ -148,31 +148,36 @@ Print Assumptions rw_release_admits.
 
 (* obligation: a blocked fiber is inside the wait of rdlock / wrlock, and whenever a fiber is
    blocked the word shows the lock owned or handed over (write_locked + reader_count > 0) — nobody
-   is ever blocked on a lock that nobody owns or has been handed.  Quiescence: when no fiber can
-   run and the word shows no owner, every fiber has finished.
-   NOT proved here (kept as a comment; see the report): that a fiber which was POPPED from its list
-   and is asleep always has a live popping fiber that will schedule it —
-     forall f, blocked f -> (f already popped) -> exists u, popping s u q /\ "u's in-flight entry is f".
-   The invariant tracks ownership counts of popped waiters but not the identity link popper->popped. *)
-Theorem rw_no_stranded_partial : forall progs s,
+   is ever blocked on a lock that nobody owns or has been handed.
+   Quiescence: when no fiber can run, every unit of write_locked / reader_count belongs to a fiber
+   that FINISHED while holding the lock (empty stack, role ROwn): no live fiber owns the lock, no
+   admission is pending, no popped or woken waiter exists (the invariant links every popped waiter
+   to the live fiber that is about to schedule it: RwlockInv.i_popped).  Hence fibers can only
+   remain blocked behind a fiber that terminated without unlocking; in particular if the word shows
+   no owner, every fiber has finished. *)
+Theorem rw_no_stranded : forall progs s,
   guard progs -> reachable M (init progs) s ->
   (forall t, status_of s t = SBlocked ->
      (exists sd, waiting s t sd) /\
      0 < f_wl (rw_unpack (word (mem s) 0)) + f_rc (rw_unpack (word (mem s) 0))) /\
   ((forall t, status_of s t <> SReady) ->
-   f_wl (rw_unpack (word (mem s) 0)) + f_rc (rw_unpack (word (mem s) 0)) = 0 ->
-   forall t, status_of s t = SDone).
+   (exists g, word (mem s) 0 = rw_pack (counts s g) /\ fields_ok (counts s g) /\
+              (forall t sd, waiting s t sd -> exists w, grole g t = RWait sd w) /\
+              forall u sd, 0 < c_own sd (grole g u) (stk s u) -> stk s u = [] /\ grole g u = ROwn sd) /\
+   (f_wl (rw_unpack (word (mem s) 0)) + f_rc (rw_unpack (word (mem s) 0)) = 0 ->
+    forall t, status_of s t = SDone)).
 Proof.
   intros progs s G R. destruct (reachable_inv progs s G R) as [I _].
   assert (A : forall t, status_of s t = SBlocked ->
      (exists sd, waiting s t sd) /\
      0 < f_wl (rw_unpack (word (mem s) 0)) + f_rc (rw_unpack (word (mem s) 0)))
     by (intros t; exact (blocked_obligation_of_inv s t I)).
-  split; [exact A|]. intros Q Z t. destruct (status_of s t) eqn:E; auto.
+  split; [exact A|]. intros Q. split; [exact (quiescent_owners_of_inv s I Q)|].
+  intros Z t. destruct (status_of s t) eqn:E; auto.
   - exfalso. apply (Q t E).
   - destruct (A t E) as [_ P]. lia.
 Qed.
-Print Assumptions rw_no_stranded_partial.
+Print Assumptions rw_no_stranded.
 
 (* ---- non-vacuity: the hypotheses are met by concrete reachable states ---- *)
 Definition LU o := [o; OUnlock].
@@ -217,4 +222,13 @@ Example ex_try_cas :
   reachable M (init [LU OTryWr; LU OTryRd]) s /\ trying s 0 SW /\
   stk s 0 = [WCasW 0 0 1 5; FC (TCasA SW [OUnlock] 1)] /\ word (mem s) 0 = 0 /\
   stk s 1 = [WCasW 0 0 2 5; FC (TCasA SR [OUnlock] 1)].
+Proof. split; [apply ex_reach|]. vm_compute. auto. Qed.
+
+(* quiescence with a stranded-looking waiter: fiber 0 finishes while holding the write lock, fiber 1
+   stays blocked; the word still shows write_locked: the owner is a finished fiber *)
+Example ex_blocked_behind_finished_owner :
+  let progs := [[OWr]; LU ORd] in
+  let s := ex_state progs ([0;0;0;0] ++ repeat 1 25)%nat in
+  reachable M (init progs) s /\ status_of s 0 = SDone /\ status_of s 1 = SBlocked /\
+  word (mem s) 0 = rw_pack {| f_wl := 1; f_rc := 0; f_wr := 1; f_ww := 0 |}.
 Proof. split; [apply ex_reach|]. vm_compute. auto. Qed.
